@@ -88,6 +88,7 @@ type Exec struct {
 	freshCtx int
 	curSkolems []Term
 	assertsHit map[string]bool
+	flatCache  map[string][][]*ssa.Call
 	pkgInitOf string
 	specWhere string
 	qscript  []qline
